@@ -115,8 +115,14 @@ def check(ctx, identity, payload, meta, params):
         from pyrtcm import RTCMReader
 
         fr = refcrc.frame(payload)
-        r1 = RTCMReader(io.BytesIO(fr + fr), labelmsm=1, quitonerror=2)
-        r2 = RTCMReader(io.BytesIO(fr + fr), labelmsm=2, quitonerror=2)
+        from vf import posargs
+
+        # half of these pairs are built with the leading options given BY POSITION in the documented order
+        # (datastream, validate, quitonerror, labelmsm, ...)
+        npos = 3 if len(payload) % 2 == 0 else 0
+        ctx.hit(f"live_readers_positional_{npos}")
+        r1 = posargs.make_reader(RTCMReader, io.BytesIO(fr + fr), npos, labelmsm=1, quitonerror=2)
+        r2 = posargs.make_reader(RTCMReader, io.BytesIO(fr + fr), npos, labelmsm=2, quitonerror=2)
         try:
             got = [attrs_of(r1.read()[1]), attrs_of(r2.read()[1]), attrs_of(r1.read()[1]), attrs_of(r2.read()[1])]
         except Exception as e:
